@@ -18,6 +18,7 @@ import Driver.FamCharPartition
 import Driver.FamLiteral
 import Driver.FamMinimize
 import Driver.FamStrings
+import Driver.FamMgr
 
 open Driver
 
@@ -29,6 +30,7 @@ structure DState where
   unknown : Nat := 0
   counts : List (String × Nat) := []
   re : Driver.FamRe.ReSt := {}
+  mgr : Smt.Mgr := Smt.Mgr.new
 
 def bump (cs : List (String × Nat)) (k : String) : List (String × Nat) :=
   match cs with
@@ -65,6 +67,10 @@ def step (st : DState) (lineNo : Nat) (line : String) : DState × List String :=
         if fam == "re" then
           let (re', r) := Driver.FamRe.handle st.re op args
           ({ st with re := re' }, r)
+        else if fam == "mgr" then
+          -- stateful manager model replayed from a fresh `Mgr` (no table oracle)
+          let (m', r) := Driver.FamMgr.handle st.mgr op args
+          ({ st with mgr := m' }, r)
         else (st, dispatch fam op args)
       match reply with
       | none => ({ st with unknown := st.unknown + 1 }, [s!"UNKNOWN {lineNo} {line}"])
